@@ -193,6 +193,9 @@ pub fn main(args: &Args) -> i32 {
     let first = args.num("first", 0) as usize;
     let big = args.get("big", "0");
     let max_subsets = args.num("subsets", 6) as usize;
+    // histories with MiB payloads have thousands of file-system operations and images of tens of MB: explore every
+    // sync / unlink / request boundary and its neighbours, and of the remaining writes a sample of about `points`
+    let points = args.num("points", if big == "1" { 500 } else { 0 }) as usize;
     let exe = std::env::current_exe().unwrap();
     let so = args.get("so", "/verif/.cache/iorec.so");
     let out_path = args.get("out", "/dev/stdout");
@@ -247,8 +250,11 @@ pub fn main(args: &Args) -> i32 {
         let mut rng = Rng::new(seed ^ (hi as u64) << 20);
         let mut k = 0usize;
         let mut last_sig = String::new();
+        let stride = if points > 0 && nwrites > points { nwrites / points } else { 1 };
+        let (mut boundary, mut explored, mut skipped) = (true, 0usize, 0usize);
         for (idx, r) in recs.iter().enumerate() {
             if r.op == 6 {
+                boundary = true;
                 let ws: Vec<&str> = r.path.split(' ').collect();
                 match ws[0] {
                     "start" => started = ws[1].parse().unwrap_or(started),
@@ -281,6 +287,13 @@ pub fn main(args: &Args) -> i32 {
             if !opened {
                 continue; // crashes during the very first schema creation: nothing acknowledged yet; covered by the first image after "opened"
             }
+            let selected = stride == 1 || boundary || r.op == 3 || r.op == 4 || k % stride == 0 || rng.below(stride) == 0;
+            boundary = r.op == 3 || r.op == 4; // the operation after a sync / unlink is explored too
+            if !selected {
+                skipped += 1;
+                continue;
+            }
+            explored += 1;
             let inflight = if started > acked { started } else { -1 };
             // (a) process crash: all writes so far reached the files
             materialise(&files, &dir, &target);
@@ -300,7 +313,7 @@ pub fn main(args: &Args) -> i32 {
                     masks.extend(0..(1u64 << np)); // every subset (with the files as of their last sync)
                 } else {
                     masks.push(0);
-                    for j in 1..np.min(40) {
+                    for j in 1..np.min(if stride > 1 { 8 } else { 40 }) {
                         masks.push((1u64 << j) - 1); // prefixes
                         masks.push(((1u64 << np.min(63)) - 1) & !((1u64 << j) - 1)); // suffixes
                     }
@@ -339,6 +352,7 @@ pub fn main(args: &Args) -> i32 {
                 }
             }
         }
+        writeln!(w, "# i=9001 op=crashpoints explored={explored} skipped={skipped} stride={stride}").unwrap();
         writeln!(w, "end h={hi} dead=0").unwrap();
     }
     w.flush().unwrap();
